@@ -93,7 +93,12 @@ pub fn run_tls(m: &TlsMaterial, c: &TlsCase) -> Result<TlsObs, String> {
         let mut tail = r.bytes(tl);
         tail.insert(0, 0);
         // the response inside TLS repeats the capabilities (a client may also send other ones)
-        let caps2 = if r.bool() { caps } else { r.next() as u32 | wire::CLIENT_SSL };
+        // (nothing obliges a client to repeat CLIENT_SSL there: the connection is already encrypted)
+        let caps2 = match r.below(3) {
+            0 => caps,
+            1 => r.next() as u32 | wire::CLIENT_SSL,
+            _ => (if r.bool() { caps } else { r.next() as u32 }) & !wire::CLIENT_SSL,
+        };
         inner = wire::handshake41(caps2, if r.bool() { mp } else { r.next() as u32 }, cs, &c.user, &tail);
         if r.bool() {
             let k = inner.len().min(32);
